@@ -62,6 +62,7 @@ class Worker:
                 self.runlog.append((self.i, "stopped-before", j))
                 return
             if self.spec.get("raise_at") == j:
+                self._about_to_raise(result)
                 raise RuntimeError("worker %d broke" % self.i)
             if self.kind == "stream" and self.spec.get("direct") and j % 2:
                 # a worker forwarding complete event dicts passes every field, timestamp=None included
@@ -73,7 +74,16 @@ class Worker:
                 testtools.PlaceHolder("w%d.t%d" % (self.i, j),
                                       outcome=["addSuccess", "addError", "addSkip"][(self.i + j) % 3]).run(result)
         if self.spec.get("raise_at") == n:
+            if getattr(result, "shouldStop", False):
+                self.runlog.append((self.i, "stopped-before", n))
+                return
+            self._about_to_raise(result)
             raise RuntimeError("worker %d broke at the end" % self.i)
+
+    def _about_to_raise(self, result):
+        if self.spec.get("stop_first"):
+            result.stop()      # e.g. the worker's own fail-fast logic, just before its runner breaks
+        self.runlog.append((self.i, "raised", None, None, None))
 
     def __hash__(self):
         return id(self)
@@ -126,7 +136,8 @@ def execute(case, chooser):
             created.append(self)
 
         def stop(self):
-            self.stop_calls += 1
+            if sch.current_name() == "main":
+                self.stop_calls += 1
             return super().stop()
 
     class RecE2S(testtools.ExtendedToStreamDecorator):
@@ -136,24 +147,29 @@ def execute(case, chooser):
             created.append(self)
 
         def stop(self):
-            self.stop_calls += 1
+            if sch.current_name() == "main":
+                self.stop_calls += 1
             return super().stop()
 
-    workers = [Worker(i, spec, runlog, sch, kind) for i, spec in enumerate(workers_spec)]
+    gen = [0]
+
+    def make_workers():
+        # a fresh set of sub-suites per make_tests() call; the second generation is numbered 10, 11, ..
+        return [Worker(i + 10 * gen[0], spec, runlog, sch, kind) for i, spec in enumerate(workers_spec)]
     yielded = []
     route_of = (lambda i: case["same_route"]) if "same_route" in case else (lambda i: "r%d" % i)
 
     def make_tests_cts(suite):
-        for i, w in enumerate(workers):
-            if abort and abort[0] == "make_tests" and i == abort[1]:
+        for i, w in enumerate(make_workers()):
+            if abort and abort[0] == "make_tests" and i == abort[1] and not gen[0]:
                 sch.abort_snapshot = snap_finished(sch, runlog)
                 raise Marker("make_tests fails after %d" % i)
             yielded.append(i)
             yield w
 
     def make_tests_stream():
-        for i, w in enumerate(workers):
-            if abort and abort[0] == "make_tests" and i == abort[1]:
+        for i, w in enumerate(make_workers()):
+            if abort and abort[0] == "make_tests" and i == abort[1] and not gen[0]:
                 sch.abort_snapshot = snap_finished(sch, runlog)
                 raise Marker("make_tests fails after %d" % i)
             yielded.append(i)
@@ -170,7 +186,7 @@ def execute(case, chooser):
             wrap = None
             if abort and abort[0] == "wrap":
                 def wrap(result, n):
-                    if n == abort[1]:
+                    if n == abort[1] and not gen[0]:
                         sch.abort_snapshot = snap_finished(sch, runlog)
                         raise Marker("wrap_result fails for %d" % n)
                     return result
@@ -178,7 +194,36 @@ def execute(case, chooser):
         else:
             target = recorders.StreamRecorder(log, "caller")
             suite = testtools.ConcurrentStreamTestSuite(make_tests_stream)
-        _, exc = sch.run(lambda: suite.run(target))
+        if case.get("rerun"):
+            # the SAME suite object run a second time (into a second result) after the first run
+            log2 = recorders.Log(lambda name, test: sch.yield_point("res2." + name))
+            orig_add2 = log2.add
+
+            def add2(name, test=None, payload=None):
+                ev = orig_add2(name, test, payload)
+                log2.events[-1] = ev._replace(thread=sch.current_name())
+                return log2.events[-1]
+            log2.add = add2
+            target2 = (recorders.ExtRecorder(log2) if kind == "cts" else recorders.StreamRecorder(log2, "caller2"))
+            second = {"log": log2, "exc": None, "first_exc": None}
+            sch.second = second
+
+            def main():
+                try:
+                    suite.run(target)
+                except BaseException as e:  # noqa
+                    second["first_exc"] = e
+                gen[0] = 1
+                sch.interrupt = None
+                second["threads_before"] = len(shim.threads)
+                try:
+                    suite.run(target2)
+                except BaseException as e:  # noqa
+                    second["exc"] = e
+            _, exc = sch.run(main)
+            exc = second["first_exc"]
+        else:
+            _, exc = sch.run(lambda: suite.run(target))
     finally:
         (ts.threading, ts.Queue, testtools.ThreadsafeForwardingResult,
          testtools.ExtendedToStreamDecorator) = saved
@@ -193,6 +238,30 @@ def check(ctx, case, sch, log, runlog, created, exc, yielded, shim, target, deta
     ctx.check(not sch.leaked_threads(), "threads.terminate", lambda: {"leaked": sch.leaked_threads(), **detail()})
     runs = [r for r in runlog if len(r) == 2]
     started = [t for t in shim.threads if t.task.started]
+    raised = {r[0] for r in runlog if len(r) == 5}
+    if case.get("rerun"):
+        second = sch.second
+        ctx.check(second["exc"] is None, "rerun.second-run-unaffected-by-the-first",
+                  lambda: {"second run raised": repr(second["exc"]), "first run": repr(exc), **detail()})
+        if kind == "cts":
+            got = [e.test for e in second["log"].events if e.name in recorders.OUTCOMES]
+        else:
+            got = [p.payload["test_id"] for p in second["log"].of("status") if p.payload["test_status"] not in (None, "inprogress")]
+        want = []
+        for i, spec in enumerate(specs):
+            for j in range(spec["tests"]):
+                if spec.get("raise_at") == j:
+                    break
+                want.append("w%d.t%d" % (i + 10, j))
+        stale = [t for t in got if not (t.startswith("w1") or t.startswith("broken-runner"))]
+        mine = sorted(t for t in got if t.startswith("w1"))
+        complete = mine == sorted(want)
+        if kind == "cts" and any(sp.get("stop_first") for sp in specs):
+            # a worker's stop() reaches the shared result: the others may legitimately finish early
+            complete = len(set(mine)) == len(mine) and set(mine) <= set(want)
+        ctx.check(not stale and complete, "rerun.second-run-unaffected-by-the-first",
+                  lambda: {"stale events from the first run": stale, "got": mine, "want": sorted(want), **detail()})
+        return
     if abort is None:
         ctx.check(exc is None, "run.no-exception", lambda: {"exc": repr(exc), **detail()})
         ctx.check(sorted(i for i, _ in runs) == list(range(len(specs))) and
@@ -246,7 +315,13 @@ def check(ctx, case, sch, log, runlog, created, exc, yielded, shim, target, deta
                     break
                 want.append("w%d.t%d" % (i, j))
             mine = [e.test for e in ev if e.name in recorders.OUTCOMES and e.test.startswith("w%d." % i)]
-            ctx.check(mine == want, "events.exactly-once-in-worker-order",
+            if any(sp.get("stop_first") for sp in specs):
+                # a stop() reaches the shared result: any worker may legitimately finish early
+                ok = mine == want[:len(mine)] and (len(mine) == len(want) or
+                                                   any(r[0] == i and r[1] == "stopped-before" for r in runlog if len(r) == 3))
+            else:
+                ok = mine == want
+            ctx.check(ok, "events.exactly-once-in-worker-order",
                       lambda: {"worker": i, "got": mine, "want": want, **detail()})
         if case.get("cts_fault"):
             # a worker whose reporting blew up is reported as a broken runner, and the result still
@@ -256,8 +331,8 @@ def check(ctx, case, sch, log, runlog, created, exc, yielded, shim, target, deta
                       lambda: {"cts_fault": case["cts_fault"], "events": [(e.name, e.test) for e in ev][-8:], **detail()})
             return
         broken = [e for e in ev if e.name == "addError" and e.test == "broken-runner"]
-        n_broken = sum(1 for s in specs if s.get("raise_at") is not None)
-        if n_broken:
+        n_broken = len(raised)      # workers whose run() did raise (one stopped earlier never gets there)
+        if n_broken or any(sp.get("raise_at") is not None for sp in specs):
             ctx.check(len(broken) == n_broken, "broken-runner.reported",
                       lambda: {"reported": len(broken), "want": n_broken, **detail()})
     else:
@@ -379,6 +454,25 @@ def run(ctx):
                 ctx.execute("schedule", {"kind": kind, "workers": workers, "abort": ab, "mode": "random",
                                          "rseed": rng.randrange(10 ** 9), "p": rng.choice([0.1, 0.5, 0.9])},
                             sample=(n % 53 == 0))
+    # the same suite object run again after each kind of abort
+    for kind in ("cts", "stream"):
+        for ab in ([["make_tests", 1], ["interrupt", 4], ["interrupt", 9]] +
+                   ([["wrap", 1]] if kind == "cts" else [["result", 2], ["result", 5]])):
+            for rep in range(3 if ctx.quick else 20):
+                if ctx.mine():
+                    n += 1
+                    ctx.execute("schedule", {"kind": kind, "workers": [{"tests": 2}, {"tests": 2}], "abort": ab,
+                                             "rerun": True, "mode": "random", "rseed": rng.randrange(10 ** 9),
+                                             "p": rng.choice([0.1, 0.5, 0.9])})
+    # a worker that stops its result (own fail-fast) and then breaks is still reported
+    for kind in ("cts", "stream"):
+        for at in (0, 1, 2):
+            for rep in range(3 if ctx.quick else 20):
+                if ctx.mine():
+                    n += 1
+                    ctx.execute("schedule", {"kind": kind, "workers": [{"tests": 2, "raise_at": at, "stop_first": True},
+                                                                       {"tests": 2}],
+                                             "mode": "random", "rseed": rng.randrange(10 ** 9), "p": 0.5})
     ctx.note_space("every abort point (make_tests after k, wrap_result for k, caller's result at event k, "
                    "KeyboardInterrupt at run()'s n-th yield point) for 3 workers, several random schedules each", n)
     ctx.notes["random_cases"] = True
@@ -391,6 +485,8 @@ def run(ctx):
             w = {"tests": rng.randint(0, 3)}
             if rng.random() < 0.2:
                 w["raise_at"] = rng.randint(0, w["tests"])
+                if rng.random() < 0.4:
+                    w["stop_first"] = True
             if kind == "stream" and rng.random() < 0.4:
                 w["direct"] = True
             workers.append(w)
@@ -412,5 +508,7 @@ def run(ctx):
                 case["abort"] = ["wrap", rng.randint(0, len(workers) - 1)]
             else:
                 case["abort"] = ["result", rng.randint(1, 12)]
+        if "cts_fault" not in case and rng.random() < (0.35 if "abort" in case else 0.05):
+            case["rerun"] = True
         ctx.execute("schedule", case)
     ctx.notes["distinct_interleavings"] = len(ctx.interleavings)
